@@ -401,6 +401,15 @@ def rand_restart(rng, im):
     return "ri=%d" % r if r else ""
 
 
+def rand_dac(rng):
+    """arithmetic conditioning: DC L <= U in 0..15, AC Kx in 1..63 (boundaries of the 3(k-1) / k <= Kx splits)"""
+    if rng.chance(1, 3):
+        return ""
+    l = rng.choice([0, 0, 1, 2, 5, 15])
+    u = rng.choice([x for x in [0, 1, 2, 3, 7, 15] if x >= l])
+    return "dcl=%d dcu=%d ack=%d" % (l, u, rng.choice([1, 2, 5, 6, 20, 62, 63]))
+
+
 def gen_configs(rng, im, n):
     cfgs = []
     fams = ["def", "opt", "prog", "script", "arith", "arithprog", "noninter", "trans", "script", "prog", "trans"]
@@ -418,9 +427,9 @@ def gen_configs(rng, im, n):
         elif fam == "script":
             c = "src=a %s scans=%s" % (rs, script_str(random_complete_script(rng, im)))
         elif fam == "arith":
-            c = "src=a arith=1 " + rs
+            c = "src=a arith=1 %s %s" % (rs, rand_dac(rng))
         elif fam == "arithprog":
-            c = "src=a arith=1 %s %s" % (rs, "prog=1" if rng.chance(1, 2) else "scans=" + script_str(random_complete_script(rng, im)))
+            c = "src=a arith=1 %s %s %s" % (rs, rand_dac(rng), "prog=1" if rng.chance(1, 2) else "scans=" + script_str(random_complete_script(rng, im)))
         elif fam == "noninter":
             c = "src=a opt=%d %s scans=%s" % (rng.below(2), rs, script_str(sequential_script(rng, im)))
         else:
@@ -437,6 +446,7 @@ def parse_jpeg(b):
     i = 2
     frame = None
     dht = {}
+    dac = {}
     dri = 0
     scans = []
     while i + 4 <= len(b):
@@ -459,6 +469,9 @@ def parse_jpeg(b):
                 n = sum(bits)
                 dht[tcth] = (bits, list(seg[j + 17:j + 17 + n]))
                 j += 17 + n
+        elif m == 0xCC:
+            for j in range(0, len(seg) - 1, 2):
+                dac[seg[j]] = seg[j + 1]
         elif m == 0xDD:
             dri = (seg[0] << 8) | seg[1]
         if m == 0xDA:
@@ -472,7 +485,7 @@ def parse_jpeg(b):
                     break
                 j += 1
             scans.append({"comps": comps, "Ss": ss, "Se": se, "Ah": ahal >> 4, "Al": ahal & 15, "ri": dri,
-                          "dht": dict(dht), "data": b[start:j]})
+                          "dht": dict(dht), "dac": dict(dac), "data": b[start:j]})
             i = j
         else:
             i += 2 + L
@@ -525,7 +538,8 @@ def model_line(im, jpg):
             need_dc = (not prog) or s["Ss"] == 0 and s["Ah"] == 0
             need_ac = (not prog) or s["Ss"] > 0
             if arith:
-                toks += ["%d:%d:%d" % (ids.index(cid), td, ta), "-", "-"]
+                lu = s["dac"].get(td, 0x10)
+                toks += ["%d:%d:%d:%d:%d:%d" % (ids.index(cid), td, ta, lu & 15, lu >> 4, s["dac"].get(0x10 | ta, 5)), "-", "-"]
                 continue
             toks.append(str(ids.index(cid)))
             toks.append(tbl_str(s["dht"].get(td) if need_dc else None))
